@@ -34,6 +34,22 @@ def formatters_of(I):
     return out
 
 
+def site(ex):
+    """call-site signature of an exception: innermost frame inside amoco/arch (the ISA-specific code)
+    and innermost amoco frame overall, as file:function (no line numbers: harmless edits move them)"""
+    import traceback
+    arch, inner = None, None
+    for fr in traceback.extract_tb(ex.__traceback__):
+        fn = fr.filename.replace("\\", "/")
+        if "/amoco/" not in fn:
+            continue
+        short = fn.split("/amoco/", 1)[1]
+        inner = "%s:%s" % (short, fr.name)
+        if short.startswith("arch/"):
+            arch = "%s:%s" % (short, fr.name)
+    return "%s@%s" % (arch or "-", inner or "-")
+
+
 def hook_name(i):
     try:
         return i.spec.hook.__name__
@@ -74,7 +90,7 @@ def check_instruction(ck, I, label, bs, i, fmts, drv_cases):
                 F(i); F(i, toks=True)
         except BaseException as ex:
             ok = False
-            ck.report("C17:%s:render:%s:%s:%s" % (label, fn, hk, type(ex).__name__),
+            ck.report("C17:render:%s:%s:%s" % (fn if fn in ("str", "toks") else "formatter", type(ex).__name__, site(ex)),
                       "%s: rendering %s (%s, hook %s) with %s raises %s: %s" % (label, i.mnemonic, bs.hex(), hk, fn, type(ex).__name__, str(ex)[:80]),
                       "oracle", "contract of formatter %s" % fn, case=dict(where, formatter=fn))
     # -- pickle
@@ -95,7 +111,7 @@ def check_instruction(ck, I, label, bs, i, fmts, drv_cases):
                       "oracle", "Amoco.Frame.Props.state_roundtrip (uniqueness of formats) / pickling of operands", case=where)
     except BaseException as ex:
         ok = False
-        ck.report("C17:%s:pickle:%s:%s" % (label, hk, type(ex).__name__), "%s: pickling %s (%s) raises %s: %s" % (label, i.mnemonic, bs.hex(), type(ex).__name__, str(ex)[:80]),
+        ck.report("C17:pickle:%s:%s:%s" % (label, type(ex).__name__, site(ex)), "%s: pickling %s (%s) raises %s: %s" % (label, i.mnemonic, bs.hex(), type(ex).__name__, str(ex)[:80]),
                   "oracle", "pickle round-trip", case=where)
     # -- execute on a fresh map
     try:
@@ -110,7 +126,7 @@ def check_instruction(ck, I, label, bs, i, fmts, drv_cases):
         drv_cases.append((uarch is not None, uarch is not None and ("i_%s" % i.mnemonic) in uarch))
     except BaseException as ex:
         ok = False
-        ck.report("C17:%s:exec:i_%s:%s" % (label, i.mnemonic, type(ex).__name__), "%s: applying %s (%s) to a fresh map raises %s: %s" % (label, i.mnemonic, bs.hex(), type(ex).__name__, str(ex)[:80]),
+        ck.report("C17:exec:%s:%s" % (type(ex).__name__, site(ex)), "%s: applying %s (%s) to a fresh map raises %s: %s" % (label, i.mnemonic, bs.hex(), type(ex).__name__, str(ex)[:80]),
                   "oracle", "contract of semantics function i_%s (premise of Amoco.Frame.Props.exec_total)" % i.mnemonic, case=where)
     return ok
 
@@ -183,7 +199,7 @@ def main(tier):
                 if res == "raise":
                     culprit = tr.log[-1][2] if tr.log and tr.log[-1][3] == 2 else None
                     hk = culprit.hook.__name__ if culprit is not None else ("xdata" if tr.log else "?")
-                    ck.report("C17:%s:decode:%s:%s" % (label, hk, type(exn).__name__),
+                    ck.report("C17:decode:%s:%s" % (type(exn).__name__, site(exn)),
                               "%s: decoding %s raises %s in hook %s: %s" % (label, bs.hex(), type(exn).__name__, hk, str(exn)[:80]),
                               "oracle", "contract of hook %s (premise of Amoco.Frame.Props.framework_total)" % hk,
                               case={"isa": label, "bytes": bs.hex()}, real=type(exn).__name__)
